@@ -1,6 +1,7 @@
 package main
 
 import (
+	"encoding/json"
 	"flag"
 	"fmt"
 	"os"
@@ -152,7 +153,115 @@ func firstLine(s string) string {
 	return s
 }
 
+type propImpl struct {
+	files []string // harness files (rt.go and the generated walker are always included)
+	run   func(c *Check) error
+	level string
+}
+
+var props = map[string]*propImpl{}
+
 func cmdCheck(args []string) int {
-	fmt.Fprintln(os.Stderr, "not implemented yet")
-	return 2
+	id := args[0]
+	fs := flag.NewFlagSet("check", flag.ExitOnError)
+	tier := fs.String("tier", "", "quick|thorough")
+	replay := fs.String("replay", "", "replay file")
+	workers := fs.Int("workers", 16, "workers")
+	fs.Parse(args[1:])
+	if *tier == "" {
+		*tier = os.Getenv("VERIF_TIER")
+	}
+	if *tier == "" {
+		*tier = "quick"
+	}
+	var seed int64
+	if s := os.Getenv("VERIF_SEED"); s != "" {
+		seed, _ = strconv.ParseInt(s, 10, 64)
+	}
+	p := props[id]
+	if p == nil {
+		fmt.Fprintf(os.Stderr, "unknown property %s\n", id)
+		return 2
+	}
+	gen, _, err := genWalkSource()
+	if err != nil {
+		fmt.Fprintln(os.Stderr, "ERROR: generating the walker:", err)
+		return 2
+	}
+	generated := map[string][]byte{repoDir + "/zz_verif_gen_walk.go": gen}
+	r, err := NewRunner(id, generated, p.files)
+	if err != nil {
+		fmt.Println("ERROR: cannot load /repo with the harness:", err)
+		return 2
+	}
+	defer r.Cleanup()
+	if err := r.BuildNative(); err != nil {
+		fmt.Println("ERROR:", err)
+		return 2
+	}
+	if *replay != "" {
+		return doReplay(r, *replay)
+	}
+	c := newCheck(id, *tier, seed)
+	c.R = r
+	c.Workers = *workers
+	r.Eng.Workers = *workers
+	r.Eng.Seed = seed
+	if p.level != "" {
+		c.Level = p.level
+	}
+	c.Known, err = loadKnown()
+	if err != nil {
+		fmt.Println("ERROR:", err)
+		return 2
+	}
+	if err := p.run(c); err != nil {
+		fmt.Println("ERROR:", err)
+		return 2
+	}
+	if err := c.Validate(); err != nil {
+		fmt.Println("ERROR:", err)
+		return 2
+	}
+	return c.Finish()
+}
+
+// doReplay runs a recorded counterexample against the natively compiled code.
+func doReplay(r *Runner, path string) int {
+	b, err := os.ReadFile(path)
+	if err != nil {
+		fmt.Println("ERROR:", err)
+		return 2
+	}
+	var rf ReplayFile
+	if err := json.Unmarshal(b, &rf); err != nil {
+		fmt.Println("ERROR:", err)
+		return 2
+	}
+	res, err := r.Replay([]NativeCase{{ID: 0, Entry: rf.Entry, Params: rf.Params, Witness: rf.Witness}}, 1)
+	if err != nil || res[0] == nil {
+		fmt.Println("ERROR: replay failed:", err)
+		return 2
+	}
+	nr := res[0]
+	fmt.Printf("replay of %s\n  input: %s\n  native outcome: %s %s\n  failed assertions: %v\n", rf.Signature, rf.Input, nr.Outcome, nr.Msg, nr.Failures)
+	reproduced := false
+	switch rf.Kind {
+	case "panic":
+		reproduced = nr.Outcome == "panic" || nr.Outcome == "crash"
+	case "hang":
+		reproduced = nr.Outcome == "hang" || nr.Outcome == "crash"
+	case "assert":
+		for _, f := range nr.Failures {
+			if f == rf.AssertID {
+				reproduced = true
+			}
+		}
+	}
+	if reproduced {
+		fmt.Printf("VIOLATION property=%s replay=%s\n", rf.Property, path)
+		return 1
+	}
+	fmt.Println("not reproduced on the current tree")
+	return 0
 }
